@@ -122,15 +122,15 @@ func c09Leaves(level int) []c09Leaf {
 	return ls
 }
 
-func c09(ctx *Ctx) {
+func c09Cases(level int) []SCase {
 	var cases []SCase
-	for _, l := range c09Leaves(ctx.Level) {
+	for _, l := range c09Leaves(level) {
 		for _, nu := range []bool{false, true} {
 			if nu && !l.nullable {
 				continue
 			}
 			for _, sized := range []bool{false, true} {
-				if sized && !(strings.Contains(l.name, "int") && ctx.Level >= 1) {
+				if sized && !(strings.Contains(l.name, "int") && level >= 1) {
 					continue
 				}
 				s := space.Clone(l.s)
@@ -151,7 +151,7 @@ func c09(ctx *Ctx) {
 					Schema: J{"type": "object", "properties": J{"p": s, "q": sib}, "required": A{"p"}}})
 				cases = append(cases, SCase{ID: "C09/nested/" + name, Cfg: cfg, Axes: ax("nested"),
 					Schema: J{"type": "object", "properties": J{"n": J{"type": "object", "properties": J{"p": s}}}, "required": A{"n"}}})
-				if ctx.Level >= 1 {
+				if level >= 1 {
 					cases = append(cases, SCase{ID: "C09/allof/" + name, Cfg: cfg, Axes: ax("allof"),
 						Schema: J{"type": "object", "properties": J{"c": J{"allOf": A{J{"type": "object", "properties": J{"p": s}}, J{"type": "object", "properties": J{"q": sib}}}}}, "required": A{"c"}}})
 					cases = append(cases, SCase{ID: "C09/def/" + name, Cfg: cfg, Axes: ax("def"),
@@ -162,6 +162,11 @@ func c09(ctx *Ctx) {
 			}
 		}
 	}
+	return cases
+}
+
+func c09(ctx *Ctx) {
+	cases := c09Cases(ctx.Level)
 	runBehaviour(ctx, behaviour{Name: "defaults", Cases: cases, Devs: c09Devs, Values: true,
 		OnBuildErr: func(sc *SCase, msg string) {
 			attributeBuild(ctx, sc, msg, c09BuildRules, map[string]any{"kind": "gen", "files": sc.Case().Files, "cfg": sc.Case().Cfg, "compiler": msg})
